@@ -232,6 +232,47 @@ def Dict.locateSubstr (d : Dict) (p : Str) : Option (List Nat) :=
   | some none => some []
   | some (some occs) => some (dedupAdj (sortNat occs))
 
+
+/-! ### String iterator (`iterators/IteratorDictStringFMINDEX.h`) -/
+
+/-- `processed` is the next ID, `scanneable` one past the last ID of the scan, `last` the last ID of the dictionary. -/
+structure SIter where
+  processed : Nat
+  scanneable : Nat
+  last : Nat
+
+def SIter.hasNext (it : SIter) : Bool := it.processed < it.scanneable
+
+/-- `IteratorDictStringFMINDEX::next`: row 2 for the last ID of the dictionary, `ID + 3` otherwise. -/
+def Dict.iterNext (d : Dict) (it : SIter) : Option (List Sym × SIter) :=
+  match extractId d.ix (if it.processed = it.last then 2 else it.processed + 3) d.maxlength with
+  | none => none
+  | some s => some (s, { it with processed := it.processed + 1 })
+
+/-- `while (hasNext()) next()`. -/
+def Dict.drain (d : Dict) : Nat → SIter → Option (List (List Sym))
+  | 0, _ => some []
+  | fuel + 1, it =>
+    if it.hasNext then
+      match d.iterNext it with
+      | none => none
+      | some (s, it') =>
+        match d.drain fuel it' with
+        | some l => some (s :: l)
+        | none => none
+    else some []
+
+/-- `StringDictionaryFMINDEX::extractTable`. -/
+def Dict.extractTable (d : Dict) : Option (List (List Sym)) :=
+  d.drain d.elements { processed := 1, scanneable := d.elements + 1, last := d.elements }
+
+/-- `StringDictionaryFMINDEX::extractPrefix`: `some none` is the NULL iterator. -/
+def Dict.extractPrefix (d : Dict) (p : Str) : Option (Option (List (List Sym))) :=
+  match locateP d.ix (1 :: symsOf p) with
+  | none => none
+  | some (0, _, _) => some none
+  | some (_, l, r) => (d.drain (r + 1 - l) { processed := l, scanneable := r + 1, last := d.elements }).map some
+
 /-! ### What `build_index` derives from the suffix array -/
 
 /-- Text position of a row's suffix in a text of length `n`. -/
